@@ -8,32 +8,40 @@ Producer/consumer transition system of the token channel of `ParseWithRuntime`
   while parsing and may stop after ANY number of receives (success, or an error anywhere) —
   the 3-slot ring and its prefetch are over-approximated by "any number of receives";
   a receive on the closed channel returns at once;
-* on return the deferred `p.tokens.drain()` (fix f2d708b) receives until the channel is closed.
-  `drain := false` is the code before that fix.
+* on return the deferred `p.tokens.drain()` (fix f2d708b) receives until the channel is closed:
+  mode `sync` (the code as it is). Mode `none` is the code before that fix; mode `async` is the
+  variant in which `drain` hands the rest of the channel to a helper goroutine and returns at once.
+
+The property "nothing outlives the call" is about the state AT THE RETURN EVENT: the producer has
+terminated and no helper goroutine of the parser exists.
 -/
 namespace Ecal.Chan
 
 inductive Prod where | running | terminated deriving DecidableEq, Repr
 inductive Cons where | parsing | draining | returned deriving DecidableEq, Repr
+inductive Mode where | sync | async | none deriving DecidableEq, Repr
 
 structure St where
   toSend : Nat
   prod : Prod
   cons : Cons
+  helper : Bool := false      -- a drain goroutine started by the parser is alive
   deriving DecidableEq, Repr
 
 inductive Ev where
   | recv        -- consumer (parsing) receives: a token (rendezvous with the producer's send) or "closed"
   | close       -- producer: nothing left to send → close(l.tokens), goroutine ends
   | stop        -- consumer: the parse function reaches a return statement
-  | drainRecv   -- deferred drain takes one token
-  | drainEnd    -- deferred drain sees the closed channel; ParseWithRuntime has returned
+  | drainRecv   -- deferred synchronous drain takes one token
+  | drainEnd    -- deferred synchronous drain sees the closed channel; ParseWithRuntime has returned
+  | helpRecv    -- asynchronous drain goroutine takes one token
+  | helpEnd     -- asynchronous drain goroutine sees the closed channel and ends
   deriving DecidableEq, Repr
 
-def init (n : Nat) : St := ⟨n, .running, .parsing⟩
+def init (n : Nat) : St := ⟨n, .running, .parsing, false⟩
 
 /-- one step; `none` = the event is not enabled in this state -/
-def step (drain : Bool) (s : St) : Ev → Option St
+def step (m : Mode) (s : St) : Ev → Option St
   | .recv =>
     if s.cons = .parsing then
       if 0 < s.toSend ∧ s.prod = .running then some { s with toSend := s.toSend - 1 }
@@ -43,49 +51,63 @@ def step (drain : Bool) (s : St) : Ev → Option St
   | .close =>
     if s.prod = .running ∧ s.toSend = 0 then some { s with prod := .terminated } else none
   | .stop =>
-    if s.cons = .parsing then some { s with cons := if drain then .draining else .returned } else none
+    if s.cons = .parsing then
+      match m with
+      | .sync => some { s with cons := .draining }
+      | .async => some { s with cons := .returned, helper := true }   -- `go func() { for range … }()`; return
+      | .none => some { s with cons := .returned }
+    else none
   | .drainRecv =>
     if s.cons = .draining ∧ 0 < s.toSend ∧ s.prod = .running then some { s with toSend := s.toSend - 1 } else none
   | .drainEnd =>
     if s.cons = .draining ∧ s.prod = .terminated then some { s with cons := .returned } else none
+  | .helpRecv =>
+    if s.helper = true ∧ 0 < s.toSend ∧ s.prod = .running then some { s with toSend := s.toSend - 1 } else none
+  | .helpEnd =>
+    if s.helper = true ∧ s.prod = .terminated then some { s with helper := false } else none
 
 /-- run a list of events (`none` if one of them is not enabled) -/
-def exec (drain : Bool) : St → List Ev → Option St
+def exec (m : Mode) : St → List Ev → Option St
   | s, [] => some s
-  | s, e :: es => match step drain s e with
-    | some s' => exec drain s' es
+  | s, e :: es => match step m s e with
+    | some s' => exec m s' es
     | none => none
 
-def allEv : List Ev := [.recv, .close, .stop, .drainRecv, .drainEnd]
+def allEv : List Ev := [.recv, .close, .stop, .drainRecv, .drainEnd, .helpRecv, .helpEnd]
 
 /-- some goroutine can move -/
-def canMove (drain : Bool) (s : St) : Bool := allEv.any fun e => (step drain s e).isSome
+def canMove (m : Mode) (s : St) : Bool := allEv.any fun e => (step m s e).isSome
+
+/-- nothing of the parser is left: the state the property demands at the return -/
+def clean (s : St) : Bool := s.prod = .terminated && !s.helper
 
 /-- deterministic schedule used by the driver: the consumer receives `k` times (or until the
-    channel is closed), stops, then everything that can still run runs. Result state. -/
-def schedule (drain : Bool) (n k : Nat) : St :=
+    channel is closed), stops, and the deferred drain runs until the call has returned.
+    Result: the state at the return event. -/
+def schedule (m : Mode) (n k : Nat) : St :=
   let rec parsePhase : Nat → St → St
     | 0, s => s
     | k+1, s =>
-      match step drain s .recv with
+      match step m s .recv with
       | some s' => parsePhase k s'
-      | none => match step drain s .close with
+      | none => match step m s .close with
         | some s' => parsePhase k s'
         | none => s
   let rec rest : Nat → St → St
     | 0, s => s
     | f+1, s =>
-      match [Ev.drainRecv, .close, .drainEnd].findSome? (step drain s) with
-      | some s' => rest f s'
-      | none => s
+      if s.cons = .returned then s
+      else match [Ev.drainRecv, .close, .drainEnd].findSome? (step m s) with
+        | some s' => rest f s'
+        | none => s
   let s := parsePhase k (init n)
-  match step drain s .stop with
+  match step m s .stop with
   | some s' => rest (n + 3) s'
   | none => s
 
-/-- verdict of the model for one call: the lexer goroutine is still there after the return -/
-def leaks (drain : Bool) (n k : Nat) : Bool :=
-  let s := schedule drain n k
-  !(s.cons = .returned ∧ s.prod = .terminated)
+/-- verdict of the model for one call: something of the parser is still there at the return -/
+def leaks (m : Mode) (n k : Nat) : Bool :=
+  let s := schedule m n k
+  !(s.cons = .returned ∧ clean s = true)
 
 end Ecal.Chan
